@@ -227,6 +227,11 @@ package rtsp
 //@ func (s *Session) asTCPConsumer(stream *media.Stream, resp *Response) (err error)
 //@   requires sessOK(s) && stream != nil && resp != nil && (authOff(s) || (s.user != nil && permits(s.user, s.path, auth.PullRight)))
 //@   modifies s.consumer, s.logger, s.timeout, misc(s), ghostAll("misc"), held(&s.lockW), out(s.conn), ghostInt(s.conn, "flushed"), ghostInt(s.conn, "flushes"), out(s.wsconn), ghostInt(s.wsconn, "wsmessages")
+// whatever is attached to the source stream is first recorded as the session's consumer: the session loop's cleanup
+// (TEARDOWN, disconnect, a reply that could not be written) closes s.consumer and nothing else, so an attachment made
+// before that point would never be released
+//@   local c *tcpConsumer
+//@   assert[call:StartConsume] typeIs(s.consumer, "*tcpConsumer") && s.consumer.(*tcpConsumer) == c
 //@   ensures !held(&s.lockW) && (err == nil ==> sent(s) == old(sent(s)) + 1) && sent(s) <= old(sent(s)) + 1 && sent(s) >= old(sent(s))
 // a refusal (the role function changed the status code) attaches nothing and is not an error of the session: the only
 // error it can end with is the connection's own (the refusal could not be written), so the connection stays usable
@@ -236,6 +241,11 @@ package rtsp
 //@ func (s *Session) asUDPConsumer(stream *media.Stream, resp *Response) (err error)
 //@   requires sessOK(s) && stream != nil && resp != nil && (authOff(s) || (s.user != nil && permits(s.user, s.path, auth.PullRight))) && s.conn != nil
 //@   modifies resp.StatusCode, s.consumer, s.logger, s.timeout, misc(s), ghostAll("misc"), held(&s.lockW), out(s.conn), ghostInt(s.conn, "flushed"), ghostInt(s.conn, "flushes"), out(s.wsconn), ghostInt(s.wsconn, "wsmessages")
+// whatever is attached to the source stream is first recorded as the session's consumer: the session loop's cleanup
+// (TEARDOWN, disconnect, a reply that could not be written) closes s.consumer and nothing else, so an attachment made
+// before that point would never be released
+//@   local c *udpConsumer
+//@   assert[call:StartConsume] typeIs(s.consumer, "*udpConsumer") && s.consumer.(*udpConsumer) == c
 //@   ensures !held(&s.lockW) && (err == nil ==> sent(s) == old(sent(s)) + 1) && sent(s) <= old(sent(s)) + 1 && sent(s) >= old(sent(s))
 // a refusal (the role function changed the status code) attaches nothing and is not an error of the session: the only
 // error it can end with is the connection's own (the refusal could not be written), so the connection stays usable
@@ -245,6 +255,11 @@ package rtsp
 //@ func (s *Session) asMulticastConsumer(stream *media.Stream, resp *Response) (err error)
 //@   requires sessOK(s) && stream != nil && resp != nil && (authOff(s) || (s.user != nil && permits(s.user, s.path, auth.PullRight)))
 //@   modifies resp.StatusCode, s.consumer, s.logger, s.timeout, misc(s), ghostAll("misc"), held(&s.lockW), out(s.conn), ghostInt(s.conn, "flushed"), ghostInt(s.conn, "flushes"), out(s.wsconn), ghostInt(s.wsconn, "wsmessages")
+// whatever is attached to the source stream is first recorded as the session's consumer: the session loop's cleanup
+// (TEARDOWN, disconnect, a reply that could not be written) closes s.consumer and nothing else, so an attachment made
+// before that point would never be released
+//@   local c *multicastConsumer
+//@   assert[call:AddMember] typeIs(s.consumer, "*multicastConsumer") && s.consumer.(*multicastConsumer) == c
 //@   ensures !held(&s.lockW) && (err == nil ==> sent(s) == old(sent(s)) + 1) && sent(s) <= old(sent(s)) + 1 && sent(s) >= old(sent(s))
 // a refusal (the role function changed the status code) attaches nothing and is not an error of the session: the only
 // error it can end with is the connection's own (the refusal could not be written), so the connection stays usable
@@ -414,14 +429,10 @@ package rtsp
 //@ func (c *PullClient) requestPlay() (err error)
 //@   requires c != nil && c.conn != nil && c.logger != nil && c.url != nil && !held(&c.lockW) && utils.Multicast != nil
 //@   modifies all()
-//@   local resp *Response
 //@   local mproxy *multicastProxy
 //@   local i int
-//@   loop 0: invariant rtpChannelMin <= i && mproxy != nil && err == nil && resp != nil
+//@   loop 0: invariant rtpChannelMin <= i && mproxy != nil && err == nil
 //@   loop 0: modifies mproxy.ports[:], ghostInt(utils.Multicast, "taken"), misc(utils.Multicast)
-//@   assert[call:NewStream] err == nil && resp != nil && 200 <= resp.StatusCode && resp.StatusCode <= 300
-//@   assert[call:NextIP] err == nil && resp != nil
-//@   assert[call:NextPort] err == nil && resp != nil
 //@   ensures err != nil ==> c.stream == old(c.stream) && c.conn == old(c.conn) && c.logger == old(c.logger) && c.url == old(c.url) && !held(&c.lockW) && upTo3(ghostInt(c.conn, "flushes"), old(ghostInt(c.conn, "flushes")))
 //@   ensures err != nil ==> ghostInt(utils.Multicast, "taken") == old(ghostInt(utils.Multicast, "taken"))
 //@ func (c *PullClient) requestSetup() (err error)
